@@ -484,6 +484,8 @@ def r10(ctx):
 
 
 def run(ctx):
+    from . import C03
+    C03.r3(ctx, C03.Typestate(ctx.w, C03.CELLS))   # a request travelling (or held) on a link that is partitioned is destroyed with the partition: its connector is refused, not left hanging
     r10(ctx)
     r9(ctx)
     r8(ctx)
